@@ -93,10 +93,18 @@ impl Shape {
         let crowd = cx.rng.chance(1, 40);
         let n = if crowd { cx.rng.range(70, 150) } else { cx.rng.range(1, 6) };
         let mut recs: Vec<Rec> = vec![];
+        // the word every record of a crowded store starts with; for C05 a short one whose scrambled spelling
+        // shares no gram with it
+        let common: &str = if self.0 == Which::Related { *cx.rng.pick(&["the", "form", "metal", "wifi", "her"]) } else { "metal" };
+        let scrambled: String = {
+            let mut c = cv(common);
+            c.swap(0, 1);
+            s(&c)
+        };
         for i in 0..n {
             let t = if crowd {
                 // many hits for one query, and now and then a title of several hundred words (a very long output)
-                if i == 3 { (0..cx.rng.range(150, 400)).map(|_| gen::any_word(&mut cx.rng, lang)).collect::<Vec<_>>().join(" ") } else { format!("metal {} {}", gen::any_word(&mut cx.rng, lang), i) }
+                if i == 3 { (0..cx.rng.range(150, 400)).map(|_| gen::any_word(&mut cx.rng, lang)).collect::<Vec<_>>().join(" ") } else { format!("{} {} {}", common, gen::any_word(&mut cx.rng, lang), i) }
             } else {
                 shape_title(&mut cx.rng, lang, &corpus)
             };
@@ -105,7 +113,7 @@ impl Shape {
         if crowd {
             cx.count("stores of 70-150 records with one very long title");
         }
-        let limit = if crowd { 200 } else { *cx.rng.pick(&[10, 10, 10, 1, 2, 3, 65536]) };
+        let limit = if crowd { if self.0 == Which::Related { *cx.rng.pick(&[1, 2, 3, 10, 200]) } else { 200 } } else { *cx.rng.pick(&[10, 10, 10, 1, 2, 3, 65536]) };
         // C05/C09 read the spans from sentinel markers; one store in three is configured with sentinel
         // runs of different lengths (1-3 characters each), collapsed again before the hit is parsed, so
         // that position arithmetic depending on the marker lengths is exercised as well
@@ -119,8 +127,16 @@ impl Shape {
         let st_m = if self.0 == Which::Titles { Some(St::build(lang, &recs, limit, (ml, mr))) } else { None };
         let toks: Vec<TextOwn> = recs.iter().map(|r| st.tok_record(&r.1)).collect();
         let rgrams: Vec<BTreeSet<oracle::Gram>> = toks.iter().map(oracle::grams_of).collect();
-        for _ in 0..8 {
-            let q = if crowd && cx.rng.chance(1, 2) { if cx.rng.chance(1, 2) { "metal".to_string() } else { recs[3.min(recs.len() - 1)].1.clone() } } else { shape_query(&mut cx.rng, lang, &st.store.lang, &recs, self.0) };
+        for qk in 0..8 {
+            let q = if crowd && self.0 == Which::Related && qk < 4 {
+                // a session on a crowded store: the common word (touches more records than any candidate cap),
+                // then its scrambled spelling (shares no gram with it)
+                if qk % 2 == 0 { common.to_string() } else { scrambled.clone() }
+            } else if crowd && cx.rng.chance(1, 2) {
+                if cx.rng.chance(1, 2) { common.to_string() } else { recs[3.min(recs.len() - 1)].1.clone() }
+            } else {
+                shape_query(&mut cx.rng, lang, &st.store.lang, &recs, self.0)
+            };
             cx.ctx(format!("lang={} records={} limit={} q={:?} markers=({:?},{:?})", lang, recs.len(), limit, q, ml, mr));
             let hits = st.search(&q);
             let hits: Hits = if wa == 1 && wb == 1 { hits } else { hits.into_iter().map(|(id, t)| (id, t.replace(&wide_l, &S1.to_string()).replace(&wide_r, &S2.to_string()))).collect() };
